@@ -214,6 +214,11 @@ func FromGo(t *ref.Type, rv reflect.Value) (interface{}, error) {
 	case ref.KUint64:
 		return rv.Uint(), nil
 	case ref.KFloat32:
+		// not through rv.Float(): float32 -> float64 -> float32 quiets a signalling
+		// NaN on this hardware (Convert between float32 types copies the bits)
+		if rv.CanInterface() {
+			return rv.Convert(reflect.TypeOf(float32(0))).Interface().(float32), nil
+		}
 		return float32(rv.Float()), nil
 	case ref.KFloat64:
 		return rv.Float(), nil
